@@ -327,7 +327,7 @@ impl Prop for C10 {
     fn runs(&self, tier: Tier) -> u64 {
         match tier {
             Tier::Quick => 1_000_000,
-            Tier::Thorough => 120_000_000,
+            Tier::Thorough => 500_000_000,
         }
     }
     fn gen(&self, rng: &mut Rng, tier: Tier, _idx: u64) -> Case {
